@@ -156,8 +156,20 @@ macro_rules! subject_part {
             pub fn into_full(b: B, p: [T; 3]) -> [T; 6] {
                 a6(mk(p).into_full::<W>(b))
             }
+            /// `P::from_full(full)` — and every other spelling of "take the attributes of the full colour"
+            /// (`From`, `Into`, `FromColorUnclamped`, `IntoColorUnclamped`; `FromColor` clamps and is C03's): they must agree
+            /// bit for bit; a disagreement is folded into a NaN result, which fails the from_full comparison.
             pub fn from_full(f: [T; 6]) -> [T; 3] {
-                p3($P::from_full(c6(f)))
+                use palette::convert::IntoColorUnclamped;
+                let a = p3($P::from_full(c6(f)));
+                let others: [[T; 3]; 4] = [
+                    p3(<$P<T> as From<Cam16<T>>>::from(c6(f))),
+                    p3(Into::<$P<T>>::into(c6(f))),
+                    p3(<$P<T> as FromColorUnclamped<Cam16<T>>>::from_color_unclamped(c6(f))),
+                    p3(IntoColorUnclamped::<$P<T>>::into_color_unclamped(c6(f))),
+                ];
+                let same = others.iter().all(|o| (0..3).all(|i| o[i].to_bits() == a[i].to_bits() || (o[i].is_nan() && a[i].is_nan())));
+                if same { a } else { [T::NAN; 3] }
             }
         }
     };
